@@ -361,6 +361,13 @@ def load_patches(
     if patch_centers is not None:
         if isinstance(patch_centers, Catalog):
             patch_centers = patch_centers.get_centers()
+        if patch_ids != list(range(len(patch_centers))):
+            # a center without objects would shift all following centers
+            if parallel.on_root():
+                (cache_directory / PATCH_INFO_FILE).unlink()
+            raise InconsistentPatchesError(
+                "patch IDs do not match the patch centers, some patches are empty"
+            )
         patch_arg_iter = zip(patch_paths, patch_centers)
 
     else:
